@@ -505,7 +505,12 @@ func scanProcessMemory(fns []*ssa.Function, modPrefix string) (bad []finding) {
 						bad = append(bad, finding{"procmem", fn, in.Pos(), "process memory: " + name + " (state outside the store survives discarded branches)"})
 					}
 					if bi, ok := ci.Common().Value.(*ssa.Builtin); ok && bi.Name() == "delete" {
+						// (a map held by a private carrier struct that lives for one call is local working
+						// memory; only long-lived structs - keepers, servers, hooks and what they hold - count)
 						if o, f, ok := fieldOf(ci.Common().Args[0]); ok {
+							if _, ll := isLongLived(o); !ll {
+								continue
+							}
 							bad = append(bad, finding{"procmem", fn, in.Pos(), "delete on struct-held map " + typeName(o) + "." + f})
 						}
 					}
